@@ -147,3 +147,9 @@ def sha(obj):
     if not isinstance(obj, bytes):
         obj = json.dumps(obj, sort_keys=True, default=repr).encode('utf-8', 'surrogatepass')
     return hashlib.sha1(obj).hexdigest()[:16]
+
+
+def has_foreign(resp):
+    """a line 'EXC<TAB>FOREIGN' of the canonical event dump (content cannot forge it: tabs and newlines inside values are escaped, but a
+    PI target EXC followed by data FOREIGN... yields 'PI<TAB>EXC<TAB>FOREIGN...', so a substring test is not enough)"""
+    return any(l == 'EXC\tFOREIGN' for l in resp.split('\n'))
